@@ -667,8 +667,9 @@ func (p *Packer) removeExternalLinks(root string, links []string) error {
 // component, including any symlinks met on the way, and reports whether
 // the location it finally names is inside root or explicitly allowed per
 // the Packer's config. Components that do not exist cannot be symlinks, so
-// from the first missing one onwards the rest of the path is taken as
-// written. A link that leads nowhere (a loop) does not lead outside.
+// from the first missing one (or one that is not a directory) onwards the
+// rest of the path is taken as written. A link that leads nowhere (a loop)
+// does not lead outside.
 func (p *Packer) linkResolvesWithin(root, link string) bool {
 	target, err := os.Readlink(link)
 	if err != nil {
@@ -712,6 +713,12 @@ func (p *Packer) linkResolvesWithin(root, link string) bool {
 			return within(filepath.Join(append([]string{next}, pending...)...))
 		}
 		if fi.Mode()&os.ModeSymlink == 0 {
+			if !fi.IsDir() && len(pending) > 0 {
+				// Nothing can be reached through a file: like a missing
+				// component, it ends the part of the path that can be
+				// followed.
+				return within(filepath.Join(append([]string{next}, pending...)...))
+			}
 			cur = next
 			continue
 		}
